@@ -1,13 +1,1514 @@
-//! c11: bounded stand-in (E3) -- see DESIGN.md section 5
-#![allow(dead_code, unused_imports)]
+//! C11: editing operations keep the document sound (bounded-exhaustive, E3).
+//!
+//! Every sequence of at most N public editing calls (N = 2 quick, 3 thorough) over a fixed operation alphabet is
+//! applied to each of 7 well-formed seed documents, once as generated and once as loaded from its own saved file.
+//! After every call the real post-state is compared with what the property statement implies for the real
+//! pre-state (a Hoare triple per step).  All observations of a state (reachability, page tree, page content,
+//! stream decoding incl. inflate/ASCII85, usable resources) are re-implemented here and do not call the library.
+#![allow(dead_code)]
+use crate::c03::{obj_from_json, obj_json};
 use crate::common::*;
-use crate::gen::*;
+use crate::gen::{dict_eq, obj_eq, BOOKKEEPING};
+use lopdf::content::{Content, Operation};
+use lopdf::xref::XrefType;
+use lopdf::{Bookmark, Dictionary, Document, Object, Stream, StringFormat};
+use rayon::prelude::*;
 use serde_json::{json, Value};
+use std::collections::{BTreeMap, BTreeSet};
+use std::panic::AssertUnwindSafe;
 
-pub fn run(_thorough: bool) -> Report {
-    Report::new("not built yet", false)
+type Id = (u32, u16);
+type ResSet = BTreeSet<(Vec<u8>, Vec<u8>)>;
+
+fn quiet<T>(f: impl FnOnce() -> T) -> Result<T, String> {
+    std::panic::catch_unwind(AssertUnwindSafe(f)).map_err(|e| {
+        if let Some(s) = e.downcast_ref::<String>() { s.clone() } else if let Some(s) = e.downcast_ref::<&str>() { s.to_string() } else { "panic".to_string() }
+    })
 }
 
-pub fn replay(_v: &Value) -> Result<(), String> {
-    Err("no replay".into())
+// ---------------------------------------------------------------------------------------------------------
+// independent stream decoding: zlib/deflate (after RFC 1950/1951) and ASCII85
+// ---------------------------------------------------------------------------------------------------------
+
+struct Bits<'a> { data: &'a [u8], pos: usize, buf: u32, cnt: u32 }
+
+impl<'a> Bits<'a> {
+    fn bits(&mut self, need: u32) -> Result<u32, String> {
+        let mut val = self.buf;
+        while self.cnt < need {
+            if self.pos >= self.data.len() { return Err("deflate: out of input".into()); }
+            val |= (self.data[self.pos] as u32) << self.cnt;
+            self.pos += 1;
+            self.cnt += 8;
+        }
+        self.buf = val >> need;
+        self.cnt -= need;
+        Ok(val & ((1u32 << need) - 1))
+    }
+    fn decode(&mut self, h: &Huff) -> Result<u16, String> {
+        let (mut code, mut first, mut index) = (0i32, 0i32, 0i32);
+        for len in 1..=15usize {
+            code |= self.bits(1)? as i32;
+            let count = h.count[len] as i32;
+            if code - count < first { return Ok(h.symbol[(index + (code - first)) as usize]); }
+            index += count;
+            first += count;
+            first <<= 1;
+            code <<= 1;
+        }
+        Err("deflate: bad code".into())
+    }
+}
+
+struct Huff { count: [u16; 16], symbol: Vec<u16> }
+
+fn huff(lengths: &[u8]) -> Huff {
+    let mut count = [0u16; 16];
+    for &l in lengths { count[l as usize] += 1; }
+    let mut offs = [0u16; 16];
+    for len in 1..15 { offs[len + 1] = offs[len] + count[len]; }
+    let mut symbol = vec![0u16; lengths.len()];
+    for (s, &l) in lengths.iter().enumerate() {
+        if l != 0 { symbol[offs[l as usize] as usize] = s as u16; offs[l as usize] += 1; }
+    }
+    count[0] = 0;
+    Huff { count, symbol }
+}
+
+const LENS: [u16; 29] = [3, 4, 5, 6, 7, 8, 9, 10, 11, 13, 15, 17, 19, 23, 27, 31, 35, 43, 51, 59, 67, 83, 99, 115, 131, 163, 195, 227, 258];
+const LEXT: [u32; 29] = [0, 0, 0, 0, 0, 0, 0, 0, 1, 1, 1, 1, 2, 2, 2, 2, 3, 3, 3, 3, 4, 4, 4, 4, 5, 5, 5, 5, 0];
+const DISTS: [u16; 30] = [1, 2, 3, 4, 5, 7, 9, 13, 17, 25, 33, 49, 65, 97, 129, 193, 257, 385, 513, 769, 1025, 1537, 2049, 3073, 4097, 6145, 8193, 12289, 16385, 24577];
+const DEXT: [u32; 30] = [0, 0, 0, 0, 1, 1, 2, 2, 3, 3, 4, 4, 5, 5, 6, 6, 7, 7, 8, 8, 9, 9, 10, 10, 11, 11, 12, 12, 13, 13];
+
+fn inflate_codes(b: &mut Bits, out: &mut Vec<u8>, lc: &Huff, dc: &Huff) -> Result<(), String> {
+    loop {
+        let sym = b.decode(lc)? as usize;
+        if sym < 256 { out.push(sym as u8); }
+        else if sym == 256 { return Ok(()); }
+        else {
+            let s = sym - 257;
+            if s >= 29 { return Err("deflate: bad length symbol".into()); }
+            let len = LENS[s] as usize + b.bits(LEXT[s])? as usize;
+            let ds = b.decode(dc)? as usize;
+            if ds >= 30 { return Err("deflate: bad distance symbol".into()); }
+            let dist = DISTS[ds] as usize + b.bits(DEXT[ds])? as usize;
+            if dist > out.len() { return Err("deflate: distance too far".into()); }
+            for _ in 0..len { let c = out[out.len() - dist]; out.push(c); }
+        }
+        if out.len() > (1 << 22) { return Err("deflate: output too large".into()); }
+    }
+}
+
+fn inflate(data: &[u8]) -> Result<Vec<u8>, String> {
+    let mut b = Bits { data, pos: 0, buf: 0, cnt: 0 };
+    let mut out = vec![];
+    loop {
+        let last = b.bits(1)?;
+        let ty = b.bits(2)?;
+        match ty {
+            0 => {
+                b.buf = 0; b.cnt = 0;
+                if b.pos + 4 > data.len() { return Err("deflate: stored header".into()); }
+                let len = data[b.pos] as usize | (data[b.pos + 1] as usize) << 8;
+                let nlen = data[b.pos + 2] as usize | (data[b.pos + 3] as usize) << 8;
+                if len != (!nlen & 0xffff) { return Err("deflate: stored length".into()); }
+                b.pos += 4;
+                if b.pos + len > data.len() { return Err("deflate: stored data".into()); }
+                out.extend_from_slice(&data[b.pos..b.pos + len]);
+                b.pos += len;
+            }
+            1 => {
+                let mut l = [0u8; 288];
+                for (i, x) in l.iter_mut().enumerate() { *x = if i < 144 { 8 } else if i < 256 { 9 } else if i < 280 { 7 } else { 8 }; }
+                let lc = huff(&l);
+                let dc = huff(&[5u8; 30]);
+                inflate_codes(&mut b, &mut out, &lc, &dc)?;
+            }
+            2 => {
+                let nlen = b.bits(5)? as usize + 257;
+                let ndist = b.bits(5)? as usize + 1;
+                let ncode = b.bits(4)? as usize + 4;
+                if nlen > 286 || ndist > 30 { return Err("deflate: bad counts".into()); }
+                const ORDER: [usize; 19] = [16, 17, 18, 0, 8, 7, 9, 6, 10, 5, 11, 4, 12, 3, 13, 2, 14, 1, 15];
+                let mut cl = [0u8; 19];
+                for &o in ORDER.iter().take(ncode) { cl[o] = b.bits(3)? as u8; }
+                let clc = huff(&cl);
+                let mut lengths = vec![0u8; nlen + ndist];
+                let mut i = 0;
+                while i < nlen + ndist {
+                    let sym = b.decode(&clc)?;
+                    if sym < 16 { lengths[i] = sym as u8; i += 1; }
+                    else {
+                        let (val, rep) = match sym {
+                            16 => { if i == 0 { return Err("deflate: repeat without previous".into()); } (lengths[i - 1], 3 + b.bits(2)? as usize) }
+                            17 => (0, 3 + b.bits(3)? as usize),
+                            _ => (0, 11 + b.bits(7)? as usize),
+                        };
+                        if i + rep > nlen + ndist { return Err("deflate: too many lengths".into()); }
+                        for _ in 0..rep { lengths[i] = val; i += 1; }
+                    }
+                }
+                let lc = huff(&lengths[..nlen]);
+                let dc = huff(&lengths[nlen..]);
+                inflate_codes(&mut b, &mut out, &lc, &dc)?;
+            }
+            _ => return Err("deflate: bad block type".into()),
+        }
+        if last == 1 { break; }
+    }
+    Ok(out)
+}
+
+fn unzlib(data: &[u8]) -> Result<Vec<u8>, String> {
+    if data.is_empty() { return Ok(vec![]); }
+    if data.len() < 2 || data[0] & 0x0f != 8 || ((data[0] as u32) << 8 | data[1] as u32) % 31 != 0 { return Err("zlib: bad header".into()); }
+    inflate(&data[2..])
+}
+
+fn a85_decode(input: &[u8]) -> Result<Vec<u8>, String> {
+    let mut body = input;
+    if let Some(p) = input.windows(2).position(|w| w == b"~>") { body = &input[..p]; }
+    let mut out = vec![];
+    let mut group: Vec<u64> = vec![];
+    for &c in body {
+        if c == b'z' && group.is_empty() { out.extend_from_slice(&[0, 0, 0, 0]); continue; }
+        if matches!(c, b' ' | b'\t' | b'\r' | b'\n' | 0x0c | 0) { continue; }
+        if !(b'!'..=b'u').contains(&c) { return Err("ascii85: bad character".into()); }
+        group.push((c - b'!') as u64);
+        if group.len() == 5 {
+            let v = group.iter().fold(0u64, |a, d| a * 85 + d);
+            if v > u32::MAX as u64 { return Err("ascii85: group overflow".into()); }
+            out.extend_from_slice(&(v as u32).to_be_bytes());
+            group.clear();
+        }
+    }
+    if group.len() == 1 { return Err("ascii85: single trailing character".into()); }
+    if !group.is_empty() {
+        let n = group.len();
+        while group.len() < 5 { group.push(84); }
+        let v = group.iter().fold(0u64, |a, d| a * 85 + d);
+        if v > u32::MAX as u64 { return Err("ascii85: group overflow".into()); }
+        out.extend_from_slice(&(v as u32).to_be_bytes()[..n - 1]);
+    }
+    Ok(out)
+}
+
+fn a85_encode(data: &[u8]) -> Vec<u8> {
+    let mut out = vec![];
+    for ch in data.chunks(4) {
+        let mut w = [0u8; 4];
+        w[..ch.len()].copy_from_slice(ch);
+        let mut v = u32::from_be_bytes(w) as u64;
+        if ch.len() == 4 && v == 0 { out.push(b'z'); continue; }
+        let mut d = [0u8; 5];
+        for k in (0..5).rev() { d[k] = (v % 85) as u8 + b'!'; v /= 85; }
+        out.extend_from_slice(&d[..ch.len() + 1]);
+    }
+    out.extend_from_slice(b"~>");
+    out
+}
+
+/// decoded data of a stream, by the filter rules of ISO 32000-1 7.3.8.2 / 7.4 (Filter: a name or an array of zero or more names)
+fn decode_stream(s: &Stream) -> Result<Vec<u8>, String> {
+    let filters: Vec<Vec<u8>> = match s.dict.get(b"Filter") {
+        Err(_) => vec![],
+        Ok(Object::Name(n)) => vec![n.clone()],
+        Ok(Object::Array(a)) => { let mut v = vec![]; for x in a { match x { Object::Name(n) => v.push(n.clone()), _ => return Err("filter array holds a non-name".into()) } } v }
+        Ok(_) => return Err("unsupported Filter value".into()),
+    };
+    if let Ok(p) = s.dict.get(b"DecodeParms") {
+        if !filters.is_empty() && !matches!(p, Object::Null) { return Err("DecodeParms not modelled".into()); }
+    }
+    let mut data = s.content.clone();
+    for f in filters {
+        data = match f.as_slice() {
+            b"FlateDecode" => unzlib(&data)?,
+            b"ASCII85Decode" => a85_decode(&data)?,
+            _ => return Err("filter not modelled".into()),
+        };
+    }
+    Ok(data)
+}
+
+// ---------------------------------------------------------------------------------------------------------
+// independent observers of a document state
+// ---------------------------------------------------------------------------------------------------------
+
+fn deref<'a>(d: &'a Document, mut o: &'a Object) -> Option<&'a Object> {
+    for _ in 0..40 {
+        match o { Object::Reference(id) => o = d.objects.get(id)?, _ => return Some(o) }
+    }
+    None
+}
+
+/// like deref, also records every object id passed through
+fn deref_ids<'a>(d: &'a Document, mut o: &'a Object, ids: &mut BTreeSet<Id>) -> Option<&'a Object> {
+    for _ in 0..40 {
+        match o { Object::Reference(id) => { ids.insert(*id); o = d.objects.get(id)?; } _ => return Some(o) }
+    }
+    None
+}
+
+fn as_dict(o: &Object) -> Option<&Dictionary> {
+    match o { Object::Dictionary(d) => Some(d), Object::Stream(s) => Some(&s.dict), _ => None }
+}
+
+fn dict_of(d: &Document, id: Id) -> Option<&Dictionary> {
+    match deref(d, d.objects.get(&id)?)? { Object::Dictionary(x) => Some(x), _ => None }
+}
+
+fn collect_refs(o: &Object, out: &mut Vec<Id>) {
+    match o {
+        Object::Reference(id) => out.push(*id),
+        Object::Array(a) => for x in a { collect_refs(x, out); },
+        Object::Dictionary(d) => for (_, v) in d.iter() { collect_refs(v, out); },
+        Object::Stream(s) => for (_, v) in s.dict.iter() { collect_refs(v, out); },
+        _ => {}
+    }
+}
+
+fn has_ref(o: &Object, ids: &BTreeSet<Id>) -> bool {
+    let mut v = vec![];
+    collect_refs(o, &mut v);
+    v.iter().any(|x| ids.contains(x))
+}
+
+/// every id referenced, directly or through other objects, from the trailer (dangling ids included)
+fn reach_ids(d: &Document) -> BTreeSet<Id> {
+    let mut seen = BTreeSet::new();
+    let mut stack = vec![];
+    for (_, v) in d.trailer.iter() { collect_refs(v, &mut stack); }
+    while let Some(id) = stack.pop() {
+        if !seen.insert(id) { continue; }
+        if let Some(o) = d.objects.get(&id) { collect_refs(o, &mut stack); }
+    }
+    seen
+}
+
+#[derive(Clone, Debug)]
+struct PageObs {
+    id: Id,
+    content: Result<Vec<u8>, String>,
+    lib_agrees: bool,
+    lib_content: String,
+    usable: ResSet,
+    cdeps: BTreeSet<Id>,
+    rdeps: BTreeSet<Id>,
+}
+
+#[derive(Clone, Debug, Default)]
+struct Obs {
+    pages: Vec<PageObs>,
+    counts_bad: Vec<String>,
+    tree_nodes: BTreeSet<Id>,
+    reach: BTreeSet<Id>,
+}
+
+struct Walk<'a> { d: &'a Document, leaves: Vec<Id>, bad: Vec<String>, nodes: BTreeSet<Id>, stack: Vec<Id> }
+
+impl<'a> Walk<'a> {
+    fn node(&mut self, id: Id) -> usize {
+        if self.stack.contains(&id) || self.stack.len() > 64 { return 0; }
+        let dict = match dict_of(self.d, id) { Some(x) => x, None => return 0 };
+        let ty = match dict.get(b"Type") { Ok(Object::Name(n)) => n.clone(), _ => return 0 };
+        if ty == b"Page" { self.leaves.push(id); self.nodes.insert(id); return 1; }
+        if ty != b"Pages" { return 0; }
+        self.nodes.insert(id);
+        self.stack.push(id);
+        let mut n = 0;
+        if let Some(Object::Array(kids)) = dict.get(b"Kids").ok().and_then(|k| deref(self.d, k)) {
+            for k in kids { if let Object::Reference(kid) = k { n += self.node(*kid); } }
+        }
+        self.stack.pop();
+        let count = dict.get(b"Count").ok().and_then(|c| deref(self.d, c)).and_then(|c| if let Object::Integer(i) = c { Some(*i) } else { None });
+        if count != Some(n as i64) { self.bad.push(format!("Pages node {} {} has Count {:?} but {} leaf pages below it", id.0, id.1, count, n)); }
+        n
+    }
+}
+
+fn page_tree(d: &Document) -> (Vec<Id>, Vec<String>, BTreeSet<Id>) {
+    let mut w = Walk { d, leaves: vec![], bad: vec![], nodes: BTreeSet::new(), stack: vec![] };
+    let root = d.trailer.get(b"Root").ok().and_then(|r| deref(d, r)).and_then(as_dict);
+    if let Some(Object::Reference(pid)) = root.and_then(|c| c.get(b"Pages").ok()) { w.node(*pid); }
+    (w.leaves, w.bad, w.nodes)
+}
+
+fn page_content(d: &Document, page: Id, deps: &mut BTreeSet<Id>) -> Result<Vec<u8>, String> {
+    let pd = match dict_of(d, page) { Some(x) => x, None => return Err("page is not a dictionary".into()) };
+    let c = match pd.get(b"Contents") { Ok(c) => c, Err(_) => return Ok(vec![]) };
+    match deref_ids(d, c, deps) {
+        Some(Object::Stream(s)) => decode_stream(s),
+        Some(Object::Array(a)) => {
+            let mut out = vec![];
+            for e in a {
+                if let Some(Object::Stream(s)) = deref_ids(d, e, deps) { out.extend(decode_stream(s)?); }
+            }
+            Ok(out)
+        }
+        _ => Ok(vec![]),
+    }
+}
+
+/// resource names a page can use: those of the nearest Resources entry on the way from the page up through Parent
+/// (ISO 32000-1 7.7.3.4: an inheritable attribute is taken from the nearest node that has it)
+fn usable(d: &Document, page: Id, deps: &mut BTreeSet<Id>) -> ResSet {
+    let mut out = ResSet::new();
+    let mut cur = page;
+    for _ in 0..32 {
+        deps.insert(cur);
+        let dict = match dict_of(d, cur) { Some(x) => x, None => break };
+        if let Ok(r) = dict.get(b"Resources") {
+            if let Some(Object::Dictionary(rd)) = deref_ids(d, r, deps) {
+                for (cat, v) in rd.iter() {
+                    if let Some(Object::Dictionary(cd)) = deref_ids(d, v, deps) {
+                        for (n, _) in cd.iter() { out.insert((cat.clone(), n.clone())); }
+                    }
+                }
+            }
+            break;
+        }
+        match dict.get(b"Parent") { Ok(Object::Reference(p)) => cur = *p, _ => break }
+    }
+    out
+}
+
+fn lookup_resource<'a>(d: &'a Document, page: Id, cat: &[u8], name: &[u8]) -> Option<&'a Object> {
+    let mut cur = page;
+    for _ in 0..32 {
+        let dict = dict_of(d, cur)?;
+        if let Ok(r) = dict.get(b"Resources") {
+            let rd = match deref(d, r)? { Object::Dictionary(x) => x, _ => return None };
+            let cd = match deref(d, rd.get(cat).ok()?)? { Object::Dictionary(x) => x, _ => return None };
+            return deref(d, cd.get(name).ok()?);
+        }
+        match dict.get(b"Parent") { Ok(Object::Reference(p)) => cur = *p, _ => return None }
+    }
+    None
+}
+
+fn observe(d: &Document) -> Obs {
+    let (leaves, bad, nodes) = page_tree(d);
+    let reach: BTreeSet<Id> = reach_ids(d).into_iter().filter(|i| d.objects.contains_key(i)).collect();
+    let mut pages = vec![];
+    for id in leaves {
+        let mut cdeps = BTreeSet::new();
+        let content = page_content(d, id, &mut cdeps);
+        let mut rdeps = BTreeSet::new();
+        let us = usable(d, id, &mut rdeps);
+        let lib = d.get_page_content(id);
+        let (lib_agrees, lib_content) = match (&content, &lib) {
+            (Ok(c), Ok(l)) => (c == l, String::from_utf8_lossy(l).chars().take(80).collect()),
+            (Ok(_), Err(e)) => (false, format!("Err({})", e)),
+            (Err(_), _) => (true, String::new()),
+        };
+        pages.push(PageObs { id, content, lib_agrees, lib_content, usable: us, cdeps, rdeps });
+    }
+    Obs { pages, counts_bad: bad, tree_nodes: nodes, reach }
+}
+
+fn tokens(b: &[u8]) -> Vec<Vec<u8>> {
+    b.split(|c| matches!(c, b' ' | b'\n' | b'\r' | b'\t' | 0x0c | 0)).filter(|t| !t.is_empty()).map(|t| t.to_vec()).collect()
+}
+
+fn show(b: &[u8]) -> String { String::from_utf8_lossy(b).chars().take(90).collect() }
+
+// ---------------------------------------------------------------------------------------------------------
+// seed documents (well-formed by construction; what each page holds is recorded while building)
+// ---------------------------------------------------------------------------------------------------------
+
+const C_A: &[u8] = b"BT /F1 12 Tf (A) Tj ET";
+const C_A_NL: &[u8] = b"BT /F1 12 Tf (A) Tj ET\n";
+const C_B: &[u8] = b"q 1 0 0 1 5 5 cm /Im0 Do Q";
+const C_C: &[u8] = b"0 0 10 10 re f";
+
+fn long(ch: u8) -> Vec<u8> {
+    let mut v = b"BT /F1 9 Tf (".to_vec();
+    v.extend(std::iter::repeat(ch).take(120));
+    v.extend_from_slice(b") Tj ET");
+    v
+}
+
+fn rf(n: u32) -> Object { Object::Reference((n, 0)) }
+fn nm(s: &str) -> Object { Object::Name(s.as_bytes().to_vec()) }
+fn int(i: i64) -> Object { Object::Integer(i) }
+fn arr(v: Vec<Object>) -> Object { Object::Array(v) }
+fn dct(e: Vec<(&str, Object)>) -> Dictionary { let mut d = Dictionary::new(); for (k, v) in e { d.set(k.as_bytes().to_vec(), v); } d }
+fn dobj(e: Vec<(&str, Object)>) -> Object { Object::Dictionary(dct(e)) }
+fn strm(e: Vec<(&str, Object)>, b: &[u8]) -> Object { Object::Stream(Stream::new(dct(e), b.to_vec())) }
+fn page(parent: u32, mut e: Vec<(&str, Object)>) -> Object {
+    let mut v = vec![("Type", nm("Page")), ("Parent", rf(parent))];
+    v.append(&mut e);
+    dobj(v)
+}
+fn font() -> Object { dobj(vec![("Type", nm("Font")), ("Subtype", nm("Type1")), ("BaseFont", nm("Courier"))]) }
+fn gstate() -> Object { dobj(vec![("Type", nm("ExtGState")), ("LW", int(2))]) }
+fn image() -> Object { strm(vec![("Type", nm("XObject")), ("Subtype", nm("Image")), ("Width", int(1)), ("Height", int(1)), ("ColorSpace", nm("DeviceGray")), ("BitsPerComponent", int(8))], &[0x55]) }
+fn annot(p: u32) -> Object { dobj(vec![("Type", nm("Annot")), ("Subtype", nm("Text")), ("Rect", arr(vec![int(0), int(0), int(9), int(9)])), ("P", rf(p))]) }
+fn rs(items: &[(&str, &str)]) -> ResSet { items.iter().map(|(c, n)| (c.as_bytes().to_vec(), n.as_bytes().to_vec())).collect() }
+
+#[derive(Clone)]
+struct BmSpec { title: String, page: Id, parent: Option<u32> }
+
+#[derive(Clone)]
+struct PageExp { id: Id, content: Vec<u8>, res: ResSet }
+
+#[derive(Clone)]
+struct Seed {
+    name: &'static str,
+    doc: Document,
+    pages: Vec<PageExp>,
+    del: Vec<Id>,
+    rep: Vec<Id>,
+    ann: Vec<Id>,
+    res_target: Id,
+    bookmarks: Vec<BmSpec>,
+}
+
+fn new_doc(version: &str, xref_stream: bool, objs: Vec<(Id, Object)>, root: Id, info: Option<Id>, slack: u32) -> Document {
+    let mut d = Document::with_version(version);
+    d.reference_table.cross_reference_type = if xref_stream { XrefType::CrossReferenceStream } else { XrefType::CrossReferenceTable };
+    let mut m = 0;
+    for (id, o) in objs { m = m.max(id.0); d.objects.insert(id, o); }
+    d.max_id = m + slack;
+    d.trailer.set("Root", Object::Reference(root));
+    if let Some(i) = info { d.trailer.set("Info", Object::Reference(i)); }
+    d
+}
+
+fn z(n: u32) -> Id { (n, 0) }
+
+fn cat(a: &[u8], b: &[u8]) -> Vec<u8> { let mut v = a.to_vec(); v.extend_from_slice(b); v }
+
+fn seeds() -> Vec<Seed> {
+    let mut out = vec![];
+    // S0 flat tree, inherited inline resources, Contents as one reference / as an array of one, Info, one unreachable object, bookmarks
+    {
+        let objs = vec![
+            (z(1), dobj(vec![("Type", nm("Catalog")), ("Pages", rf(2))])),
+            (z(2), dobj(vec![("Type", nm("Pages")), ("Kids", arr(vec![rf(3), rf(4)])), ("Count", int(2)), ("Resources", dobj(vec![("Font", dobj(vec![("F1", rf(5))]))])), ("MediaBox", arr(vec![int(0), int(0), int(595), int(842)]))])),
+            (z(3), page(2, vec![("Contents", rf(6))])),
+            (z(4), page(2, vec![("Contents", arr(vec![rf(7)]))])),
+            (z(5), font()),
+            (z(6), strm(vec![], C_A)),
+            (z(7), strm(vec![], C_B)),
+            (z(8), dobj(vec![("Title", Object::String(b"t".to_vec(), StringFormat::Literal))])),
+            (z(9), dobj(vec![("Unused", Object::Boolean(true)), ("Ref", rf(3))])),
+        ];
+        out.push(Seed {
+            name: "flat", doc: new_doc("1.4", false, objs, z(1), Some(z(8)), 0),
+            pages: vec![PageExp { id: z(3), content: C_A.to_vec(), res: rs(&[("Font", "F1")]) }, PageExp { id: z(4), content: C_B.to_vec(), res: rs(&[("Font", "F1")]) }],
+            del: vec![z(6), z(7), z(5), z(8), z(9), z(3), z(77)], rep: vec![z(9), z(6), z(5)], ann: vec![z(5)], res_target: z(5),
+            bookmarks: vec![BmSpec { title: "One".into(), page: z(3), parent: None }, BmSpec { title: "Two".into(), page: z(4), parent: Some(1) }, BmSpec { title: "Three".into(), page: z(3), parent: None }],
+        });
+    }
+    // S1 nested tree, sparse ids, max_id above the largest id; resources inherited from the grandparent, own by reference
+    // (categories by reference), own inline; Contents as an array of two / absent / one reference
+    {
+        let objs = vec![
+            (z(10), dobj(vec![("Type", nm("Catalog")), ("Pages", rf(2))])),
+            (z(2), dobj(vec![("Type", nm("Pages")), ("Kids", arr(vec![rf(3), rf(20)])), ("Count", int(3)), ("Resources", rf(30))])),
+            (z(3), dobj(vec![("Type", nm("Pages")), ("Parent", rf(2)), ("Kids", arr(vec![rf(4), rf(5)])), ("Count", int(2))])),
+            (z(4), page(3, vec![("Contents", arr(vec![rf(41), rf(42)]))])),
+            (z(5), page(3, vec![("Resources", rf(31))])),
+            (z(20), dobj(vec![("Type", nm("Pages")), ("Parent", rf(2)), ("Kids", arr(vec![rf(21)])), ("Count", int(1))])),
+            (z(21), page(20, vec![("Resources", dobj(vec![("ExtGState", dobj(vec![("GS0", rf(33))])), ("Font", dobj(vec![("F2", rf(34))]))])), ("Contents", rf(43))])),
+            (z(30), dobj(vec![("Font", dobj(vec![("F1", rf(34))])), ("XObject", rf(35))])),
+            (z(35), dobj(vec![("Im0", rf(32))])),
+            (z(31), dobj(vec![("XObject", rf(36)), ("ExtGState", rf(37))])),
+            (z(36), dobj(vec![("Im1", rf(32))])),
+            (z(37), dobj(vec![("GS1", rf(33))])),
+            (z(32), image()),
+            (z(33), gstate()),
+            (z(34), font()),
+            (z(41), strm(vec![], C_A_NL)),
+            (z(42), strm(vec![], C_B)),
+            (z(43), strm(vec![], C_C)),
+        ];
+        out.push(Seed {
+            name: "nested", doc: new_doc("1.5", true, objs, z(10), None, 3),
+            pages: vec![
+                PageExp { id: z(4), content: cat(C_A_NL, C_B), res: rs(&[("Font", "F1"), ("XObject", "Im0")]) },
+                PageExp { id: z(5), content: vec![], res: rs(&[("XObject", "Im1"), ("ExtGState", "GS1")]) },
+                PageExp { id: z(21), content: C_C.to_vec(), res: rs(&[("ExtGState", "GS0"), ("Font", "F2")]) },
+            ],
+            del: vec![z(42), z(30), z(32), z(36), z(21), z(33)], rep: vec![z(43), z(31), z(34)], ann: vec![z(33)], res_target: z(32),
+            bookmarks: vec![],
+        });
+    }
+    // S2 annotations: duplicate entry in one Annots array, one annotation on two pages, annotation -> page back references (cycles)
+    {
+        let objs = vec![
+            (z(1), dobj(vec![("Type", nm("Catalog")), ("Pages", rf(2))])),
+            (z(2), dobj(vec![("Type", nm("Pages")), ("Kids", arr(vec![rf(3), rf(4)])), ("Count", int(2))])),
+            (z(3), page(2, vec![("Annots", arr(vec![rf(11), rf(12), rf(11)])), ("Contents", rf(6)), ("Resources", rf(9))])),
+            (z(4), page(2, vec![("Annots", arr(vec![rf(12)])), ("Contents", arr(vec![rf(7)]))])),
+            (z(5), font()),
+            (z(6), strm(vec![], C_A)),
+            (z(7), strm(vec![], C_C)),
+            (z(9), dobj(vec![("Font", dobj(vec![("F1", rf(5))]))])),
+            (z(11), annot(3)),
+            (z(12), annot(4)),
+        ];
+        out.push(Seed {
+            name: "annots", doc: new_doc("1.4", false, objs, z(1), None, 0),
+            pages: vec![PageExp { id: z(3), content: C_A.to_vec(), res: rs(&[("Font", "F1")]) }, PageExp { id: z(4), content: C_C.to_vec(), res: rs(&[]) }],
+            del: vec![z(11), z(12), z(9)], rep: vec![z(11), z(7)], ann: vec![z(11), z(12), z(6)], res_target: z(5),
+            bookmarks: vec![],
+        });
+    }
+    // S3 Contents forms: empty array, reference to an array object, long uncompressed stream; Annots absent / direct / by reference
+    {
+        let objs = vec![
+            (z(1), dobj(vec![("Type", nm("Catalog")), ("Pages", rf(2))])),
+            (z(2), dobj(vec![("Type", nm("Pages")), ("Kids", arr(vec![rf(3), rf(4), rf(5)])), ("Count", int(3)), ("Resources", dobj(vec![("Font", dobj(vec![("F1", rf(20))]))]))])),
+            (z(3), page(2, vec![("Contents", arr(vec![]))])),
+            (z(4), page(2, vec![("Contents", rf(8)), ("Annots", arr(vec![rf(11)]))])),
+            (z(5), page(2, vec![("Contents", rf(9)), ("Annots", rf(13))])),
+            (z(6), strm(vec![], C_A_NL)),
+            (z(7), strm(vec![], C_B)),
+            (z(8), arr(vec![rf(6), rf(7)])),
+            (z(9), strm(vec![], &long(b'A'))),
+            (z(11), annot(4)),
+            (z(12), annot(5)),
+            (z(13), arr(vec![rf(11), rf(12)])),
+            (z(20), font()),
+        ];
+        let f1 = rs(&[("Font", "F1")]);
+        out.push(Seed {
+            name: "forms", doc: new_doc("1.6", true, objs, z(1), None, 1),
+            pages: vec![PageExp { id: z(3), content: vec![], res: f1.clone() }, PageExp { id: z(4), content: cat(C_A_NL, C_B), res: f1.clone() }, PageExp { id: z(5), content: long(b'A'), res: f1 }],
+            del: vec![z(8), z(7), z(13), z(11)], rep: vec![z(8), z(9)], ann: vec![z(11), z(12)], res_target: z(20),
+            bookmarks: vec![],
+        });
+    }
+    // S4 shared nodes: one content stream used by two pages and twice by one page, one resource dictionary shared by both pages
+    {
+        let objs = vec![
+            (z(1), dobj(vec![("Type", nm("Catalog")), ("Pages", rf(2))])),
+            (z(2), dobj(vec![("Type", nm("Pages")), ("Kids", arr(vec![rf(3), rf(4)])), ("Count", int(2))])),
+            (z(3), page(2, vec![("Contents", arr(vec![rf(6), rf(6)])), ("Resources", rf(9))])),
+            (z(4), page(2, vec![("Contents", rf(6)), ("Resources", rf(9))])),
+            (z(5), font()),
+            (z(6), strm(vec![], C_A_NL)),
+            (z(9), dobj(vec![("Font", dobj(vec![("F1", rf(5))])), ("XObject", dobj(vec![("Im0", rf(32))])), ("ExtGState", rf(14))])),
+            (z(14), dobj(vec![("GS0", rf(33))])),
+            (z(32), image()),
+            (z(33), gstate()),
+        ];
+        let r = rs(&[("Font", "F1"), ("XObject", "Im0"), ("ExtGState", "GS0")]);
+        out.push(Seed {
+            name: "shared", doc: new_doc("1.4", false, objs, z(1), None, 0),
+            pages: vec![PageExp { id: z(3), content: cat(C_A_NL, C_A_NL), res: r.clone() }, PageExp { id: z(4), content: C_A_NL.to_vec(), res: r }],
+            del: vec![z(6), z(9), z(14), z(32)], rep: vec![z(6), z(14)], ann: vec![], res_target: z(32),
+            bookmarks: vec![],
+        });
+    }
+    // S5 stream kinds: Flate, ASCII85, empty filter array, indirect Length, a filter that cannot be decoded (DCT)
+    {
+        let mut flate = Stream::new(Dictionary::new(), long(b'C'));
+        flate.compress().expect("seed compress");
+        let lenc = C_C.len() as i64;
+        let mut s9 = Stream::new(Dictionary::new(), C_C.to_vec());
+        s9.dict.set("Length", rf(50));
+        let objs = vec![
+            (z(1), dobj(vec![("Type", nm("Catalog")), ("Pages", rf(2))])),
+            (z(2), dobj(vec![("Type", nm("Pages")), ("Kids", arr(vec![rf(3), rf(4), rf(5)])), ("Count", int(3)), ("Resources", dobj(vec![("Font", dobj(vec![("F1", rf(20))])), ("XObject", dobj(vec![("Im0", rf(32))]))]))])),
+            (z(3), page(2, vec![("Contents", rf(6))])),
+            (z(4), page(2, vec![("Contents", arr(vec![rf(7), rf(8)]))])),
+            (z(5), page(2, vec![("Contents", rf(9))])),
+            (z(6), Object::Stream(flate)),
+            (z(7), strm(vec![("Filter", nm("ASCII85Decode"))], &a85_encode(C_A_NL))),
+            (z(8), strm(vec![("Filter", arr(vec![]))], C_B)),
+            (z(9), Object::Stream(s9)),
+            (z(20), font()),
+            (z(32), strm(vec![("Type", nm("XObject")), ("Subtype", nm("Image")), ("Width", int(1)), ("Height", int(1)), ("ColorSpace", nm("DeviceGray")), ("BitsPerComponent", int(8)), ("Filter", nm("DCTDecode"))], &[0xff, 0xd8, 0xff, 0xd9])),
+            (z(50), int(lenc)),
+        ];
+        let r = rs(&[("Font", "F1"), ("XObject", "Im0")]);
+        out.push(Seed {
+            name: "filters", doc: new_doc("1.5", true, objs, z(1), None, 0),
+            pages: vec![PageExp { id: z(3), content: long(b'C'), res: r.clone() }, PageExp { id: z(4), content: cat(C_A_NL, C_B), res: r.clone() }, PageExp { id: z(5), content: C_C.to_vec(), res: r }],
+            del: vec![z(50), z(6), z(8)], rep: vec![z(7)], ann: vec![], res_target: z(32),
+            bookmarks: vec![],
+        });
+    }
+    // S6 graph corners: high sparse ids, max_id == largest id, generation 2, dangling references, self reference,
+    // unreachable cycle that points into the reachable part, unreachable stream, bookmark
+    {
+        let objs = vec![
+            (z(100), dobj(vec![("Type", nm("Catalog")), ("Pages", rf(200)), ("Names", rf(300)), ("Self", rf(100))])),
+            (z(200), dobj(vec![("Type", nm("Pages")), ("Kids", arr(vec![rf(301)])), ("Count", int(1))])),
+            (z(301), page(200, vec![("Contents", rf(400)), ("Resources", dobj(vec![("Font", dobj(vec![("F1", Object::Reference((500, 2)))]))])), ("Thumb", rf(999))])),
+            (z(400), strm(vec![], C_A)),
+            ((500, 2), font()),
+            (z(600), dobj(vec![("Next", rf(601))])),
+            (z(601), dobj(vec![("Prev", rf(600)), ("Page", rf(301))])),
+            (z(602), strm(vec![], b"unused")),
+        ];
+        out.push(Seed {
+            name: "graph", doc: new_doc("1.7", false, objs, z(100), None, 0),
+            pages: vec![PageExp { id: z(301), content: C_A.to_vec(), res: rs(&[("Font", "F1")]) }],
+            del: vec![z(601), (500, 2), z(999), z(400), z(100)], rep: vec![z(602), z(400)], ann: vec![], res_target: (500, 2),
+            bookmarks: vec![BmSpec { title: "B".into(), page: z(301), parent: None }],
+        });
+    }
+    out
+}
+
+// ---------------------------------------------------------------------------------------------------------
+// operations
+// ---------------------------------------------------------------------------------------------------------
+
+#[derive(Clone, Debug, PartialEq)]
+enum Op {
+    NewId,
+    Add(u8),
+    Replace(Id),
+    AllocSet,
+    SetBeyond,
+    Delete(Id),
+    RemoveAnnot(Id),
+    Prune,
+    DeletePages(Vec<u32>),
+    Renumber,
+    Compress,
+    Decompress,
+    ChangeContent(u32, u8),
+    AddContents(u32, u8),
+    AddToContent(u32),
+    AddXObject(u32, Vec<u8>, Id),
+    AddGState(u32, Vec<u8>, Id),
+    InsertImage(u32),
+    InsertForm(u32),
+    AddBookmark(u8),
+    BuildOutline,
+    Save,
+}
+
+fn ops_for(s: &Seed) -> Vec<Op> {
+    let np = s.pages.len() as u32;
+    let mut v = vec![Op::NewId, Op::Add(0), Op::Add(1), Op::AllocSet, Op::SetBeyond];
+    for t in &s.rep { v.push(Op::Replace(*t)); }
+    for t in &s.del { v.push(Op::Delete(*t)); }
+    for t in &s.ann { v.push(Op::RemoveAnnot(*t)); }
+    v.push(Op::Prune);
+    for p in [vec![1], vec![2], vec![1, 2], vec![1, 1], vec![0, 9]] { v.push(Op::DeletePages(p)); }
+    if np >= 3 { v.push(Op::DeletePages(vec![3, 1])); }
+    v.extend([Op::Renumber, Op::Compress, Op::Decompress]);
+    for p in 1..=np { v.push(Op::ChangeContent(p, 0)); }
+    v.push(Op::ChangeContent(1, 1));
+    v.push(Op::ChangeContent(9, 0));
+    for p in 1..=np { v.push(Op::AddContents(p, 0)); }
+    v.push(Op::AddContents(1, 1));
+    v.push(Op::AddContents(9, 0));
+    v.push(Op::AddToContent(np));
+    for p in 1..=np { v.push(Op::AddXObject(p, b"X9".to_vec(), s.res_target)); }
+    v.push(Op::AddXObject(1, b"Im0".to_vec(), s.res_target));
+    v.push(Op::AddXObject(9, b"X9".to_vec(), s.res_target));
+    for p in 1..=np { v.push(Op::AddGState(p, b"GS9".to_vec(), s.res_target)); }
+    for p in 1..=np { v.push(Op::InsertImage(p)); }
+    for p in 1..=np { v.push(Op::InsertForm(p)); }
+    v.extend([Op::AddBookmark(0), Op::AddBookmark(1), Op::BuildOutline, Op::Save]);
+    v
+}
+
+fn idj(i: Id) -> Value { json!([i.0, i.1]) }
+fn idv(v: &Value) -> Id { (v[0].as_u64().unwrap_or(0) as u32, v[1].as_u64().unwrap_or(0) as u16) }
+
+fn op_json(op: &Op) -> Value {
+    match op {
+        Op::NewId => json!({"op": "NewId"}),
+        Op::Add(k) => json!({"op": "Add", "k": k}),
+        Op::Replace(i) => json!({"op": "Replace", "id": idj(*i)}),
+        Op::AllocSet => json!({"op": "AllocSet"}),
+        Op::SetBeyond => json!({"op": "SetBeyond"}),
+        Op::Delete(i) => json!({"op": "Delete", "id": idj(*i)}),
+        Op::RemoveAnnot(i) => json!({"op": "RemoveAnnot", "id": idj(*i)}),
+        Op::Prune => json!({"op": "Prune"}),
+        Op::DeletePages(p) => json!({"op": "DeletePages", "pages": p}),
+        Op::Renumber => json!({"op": "Renumber"}),
+        Op::Compress => json!({"op": "Compress"}),
+        Op::Decompress => json!({"op": "Decompress"}),
+        Op::ChangeContent(p, w) => json!({"op": "ChangeContent", "page": p, "k": w}),
+        Op::AddContents(p, w) => json!({"op": "AddContents", "page": p, "k": w}),
+        Op::AddToContent(p) => json!({"op": "AddToContent", "page": p}),
+        Op::AddXObject(p, n, t) => json!({"op": "AddXObject", "page": p, "name": hex(n), "id": idj(*t)}),
+        Op::AddGState(p, n, t) => json!({"op": "AddGState", "page": p, "name": hex(n), "id": idj(*t)}),
+        Op::InsertImage(p) => json!({"op": "InsertImage", "page": p}),
+        Op::InsertForm(p) => json!({"op": "InsertForm", "page": p}),
+        Op::AddBookmark(k) => json!({"op": "AddBookmark", "k": k}),
+        Op::BuildOutline => json!({"op": "BuildOutline"}),
+        Op::Save => json!({"op": "Save"}),
+    }
+}
+
+fn op_from_json(v: &Value) -> Option<Op> {
+    let p = v["page"].as_u64().unwrap_or(0) as u32;
+    let k = v["k"].as_u64().unwrap_or(0) as u8;
+    Some(match v["op"].as_str()? {
+        "NewId" => Op::NewId,
+        "Add" => Op::Add(k),
+        "Replace" => Op::Replace(idv(&v["id"])),
+        "AllocSet" => Op::AllocSet,
+        "SetBeyond" => Op::SetBeyond,
+        "Delete" => Op::Delete(idv(&v["id"])),
+        "RemoveAnnot" => Op::RemoveAnnot(idv(&v["id"])),
+        "Prune" => Op::Prune,
+        "DeletePages" => Op::DeletePages(v["pages"].as_array()?.iter().map(|x| x.as_u64().unwrap_or(0) as u32).collect()),
+        "Renumber" => Op::Renumber,
+        "Compress" => Op::Compress,
+        "Decompress" => Op::Decompress,
+        "ChangeContent" => Op::ChangeContent(p, k),
+        "AddContents" => Op::AddContents(p, k),
+        "AddToContent" => Op::AddToContent(p),
+        "AddXObject" => Op::AddXObject(p, unhex(v["name"].as_str()?), idv(&v["id"])),
+        "AddGState" => Op::AddGState(p, unhex(v["name"].as_str()?), idv(&v["id"])),
+        "InsertImage" => Op::InsertImage(p),
+        "InsertForm" => Op::InsertForm(p),
+        "AddBookmark" => Op::AddBookmark(k),
+        "BuildOutline" => Op::BuildOutline,
+        "Save" => Op::Save,
+        _ => return None,
+    })
+}
+
+fn marker(s: &str) -> Object { dobj(vec![("Type", nm(s))]) }
+
+fn add_obj(k: u8, pages: &[Id]) -> Object {
+    if k == 0 {
+        dobj(vec![("Type", nm("Added")), ("Ref", Object::Reference(pages.first().copied().unwrap_or((9999, 0)))), ("Dangling", rf(8888))])
+    } else {
+        strm(vec![], b"added stream")
+    }
+}
+
+fn repl_obj(old: Option<&Object>) -> Object {
+    match old { Some(Object::Stream(_)) => strm(vec![], b"0 g"), _ => marker("Replaced") }
+}
+
+fn content_arg(k: u8) -> Vec<u8> { if k == 0 { b"0 g".to_vec() } else { long(b'B') } }
+
+fn append_arg(k: u8) -> Vec<u8> {
+    if k == 0 { b"q 0 G Q".to_vec() } else { let mut v = vec![]; for _ in 0..12 { v.extend_from_slice(b"0 0 1 1 re f "); } v.extend_from_slice(b"n"); v }
+}
+
+fn image_stream() -> Stream {
+    Stream::new(dct(vec![("Type", nm("XObject")), ("Subtype", nm("Image")), ("Width", int(1)), ("Height", int(1)), ("ColorSpace", nm("DeviceGray")), ("BitsPerComponent", int(8)), ("C11Marker", nm("Inserted"))]), vec![0x7f])
+}
+
+fn form_stream() -> Stream {
+    Stream::new(dct(vec![("Type", nm("XObject")), ("Subtype", nm("Form")), ("BBox", arr(vec![int(0), int(0), int(1), int(1)])), ("C11Marker", nm("Inserted"))]), b"0 g".to_vec())
+}
+
+enum Out {
+    Unit,
+    Id(Id),
+    Opt(Option<Object>),
+    Res(Result<(), String>),
+    Ids(Vec<Id>),
+    OptId(Option<Id>),
+    Bm(u32),
+    Saved(Result<Vec<u8>, String>),
+}
+
+fn pg(pages: &[Id], n: u32) -> Id {
+    if n == 0 { return (9999, 0); }
+    pages.get(n as usize - 1).copied().unwrap_or((9999, 0))
+}
+
+fn apply(d: &mut Document, op: &Op, pages: &[Id]) -> Out {
+    let es = |r: lopdf::Result<()>| Out::Res(r.map_err(|e| e.to_string()));
+    match op {
+        Op::NewId => Out::Id(d.new_object_id()),
+        Op::Add(k) => Out::Id(d.add_object(add_obj(*k, pages))),
+        Op::Replace(id) => { let o = repl_obj(d.objects.get(id)); d.set_object(*id, o); Out::Unit }
+        Op::AllocSet => { let id = d.new_object_id(); d.set_object(id, marker("AllocSet")); Out::Id(id) }
+        Op::SetBeyond => { let id = (d.max_id + 1, 0); d.set_object(id, marker("Beyond")); Out::Id(id) }
+        Op::Delete(id) => Out::Opt(d.delete_object(*id)),
+        Op::RemoveAnnot(id) => es(d.remove_object(id)),
+        Op::Prune => Out::Ids(d.prune_objects()),
+        Op::DeletePages(v) => { d.delete_pages(v); Out::Unit }
+        Op::Renumber => { d.renumber_objects(); Out::Unit }
+        Op::Compress => { d.compress(); Out::Unit }
+        Op::Decompress => { d.decompress(); Out::Unit }
+        Op::ChangeContent(p, k) => es(d.change_page_content(pg(pages, *p), content_arg(*k))),
+        Op::AddContents(p, k) => es(d.add_page_contents(pg(pages, *p), append_arg(*k))),
+        Op::AddToContent(p) => es(d.add_to_page_content(pg(pages, *p), Content { operations: vec![Operation::new("q", vec![]), Operation::new("Q", vec![])] })),
+        Op::AddXObject(p, n, t) => es(d.add_xobject(pg(pages, *p), n.clone(), *t)),
+        Op::AddGState(p, n, t) => es(d.add_graphics_state(pg(pages, *p), n.clone(), *t)),
+        Op::InsertImage(p) => es(d.insert_image(pg(pages, *p), image_stream(), (5.0, 5.0), (10.0, 10.0))),
+        Op::InsertForm(p) => es(d.insert_form_object(pg(pages, *p), form_stream())),
+        Op::AddBookmark(k) => {
+            if *k == 0 { Out::Bm(d.add_bookmark(Bookmark::new("Chapter".into(), [0.0, 0.0, 1.0], 0, pg(pages, 1)), None)) }
+            else { Out::Bm(d.add_bookmark(Bookmark::new("R\u{e9}sum\u{e9}".into(), [1.0, 0.0, 0.0], 2, pg(pages, 2)), Some(1))) }
+        }
+        Op::BuildOutline => Out::OptId(d.build_outline()),
+        Op::Save => { let mut buf = vec![]; let r = d.save_to(&mut buf); Out::Saved(r.map(|_| buf).map_err(|e| e.to_string())) }
+    }
+}
+
+// ---------------------------------------------------------------------------------------------------------
+// one step: apply the call to the real document, compare the real post-state with what the statement implies
+// ---------------------------------------------------------------------------------------------------------
+
+#[derive(Clone)]
+struct State {
+    doc: Document,
+    obs: Obs,
+    /// identifiers handed out by new_object_id and not used yet
+    allocated: BTreeSet<Id>,
+    /// an earlier call stored an object above max_id with set_object
+    beyond: bool,
+}
+
+struct StepResult { next: Option<State>, fails: Vec<(String, String)>, changed: bool }
+
+fn is_ref_in(o: &Object, ids: &BTreeSet<Id>) -> bool { matches!(o, Object::Reference(r) if ids.contains(r)) }
+
+fn strip_dict(d: &Dictionary, ids: &BTreeSet<Id>, drop_count: bool) -> Dictionary {
+    let is_pages = matches!(d.get(b"Type"), Ok(Object::Name(n)) if n == b"Pages");
+    let mut n = Dictionary::new();
+    for (k, v) in d.iter() {
+        if is_ref_in(v, ids) { continue; }
+        if drop_count && is_pages && k == b"Count" { continue; }
+        n.set(k.clone(), strip(v, ids, drop_count));
+    }
+    n
+}
+
+/// the object with every reference to one of `ids` taken out of arrays and dictionaries (and /Count of Pages nodes if asked)
+fn strip(o: &Object, ids: &BTreeSet<Id>, drop_count: bool) -> Object {
+    match o {
+        Object::Array(a) => Object::Array(a.iter().filter(|x| !is_ref_in(x, ids)).map(|x| strip(x, ids, drop_count)).collect()),
+        Object::Dictionary(d) => Object::Dictionary(strip_dict(d, ids, drop_count)),
+        Object::Stream(s) => { let mut n = s.clone(); n.dict = strip_dict(&s.dict, ids, drop_count); Object::Stream(n) }
+        _ => o.clone(),
+    }
+}
+
+fn without_keys(d: &Dictionary, keys: &[&[u8]]) -> Dictionary {
+    let mut n = Dictionary::new();
+    for (k, v) in d.iter() { if !keys.contains(&k.as_slice()) { n.set(k.clone(), v.clone()); } }
+    n
+}
+
+fn stream_sem_eq(a: &Stream, b: &Stream) -> Result<(), String> {
+    if a == b { return Ok(()); }
+    let da = match decode_stream(a) { Ok(x) => x, Err(e) => return Err(format!("a stream whose data cannot be decoded ({}) was changed", e)) };
+    let db = decode_stream(b).map_err(|e| format!("stream data can no longer be decoded: {}", e))?;
+    if da != db { return Err(format!("decoded stream data changed from {:?} ({} bytes) to {:?} ({} bytes)", show(&da), da.len(), show(&db), db.len())); }
+    let ig: &[&[u8]] = &[b"Filter", b"DecodeParms", b"Length"];
+    if without_keys(&a.dict, ig) != without_keys(&b.dict, ig) { return Err("stream dictionary changed beyond Filter/DecodeParms/Length".into()); }
+    match b.dict.get(b"Length") { Ok(Object::Integer(n)) if *n == b.content.len() as i64 => Ok(()), other => Err(format!("Length {:?} does not match {} content bytes", other.ok(), b.content.len())) }
+}
+
+/// an Annots holder (page dictionary or array object) with the references to `a` removed from the annotation array
+fn strip_annots(o: &Object, a: Id) -> Object {
+    let ids: BTreeSet<Id> = [a].into_iter().collect();
+    match o {
+        Object::Array(v) => Object::Array(v.iter().filter(|x| !is_ref_in(x, &ids)).cloned().collect()),
+        Object::Dictionary(d) => {
+            let mut n = d.clone();
+            if let Ok(Object::Array(v)) = d.get(b"Annots") { n.set("Annots", Object::Array(v.iter().filter(|x| !is_ref_in(x, &ids)).cloned().collect())); }
+            Object::Dictionary(n)
+        }
+        _ => o.clone(),
+    }
+}
+
+fn count_bookmarks(d: &Document, ids: &[u32], depth: u32) -> usize {
+    if depth > 16 { return 0; }
+    ids.iter().map(|i| 1 + d.bookmark_table.get(i).map(|b| count_bookmarks(d, &b.children, depth + 1)).unwrap_or(0)).sum()
+}
+
+fn erase_refs(o: &Object) -> Object {
+    match o {
+        Object::Reference(_) => Object::Name(b"REF".to_vec()),
+        Object::Array(a) => Object::Array(a.iter().map(erase_refs).collect()),
+        Object::Dictionary(d) => { let mut n = Dictionary::new(); for (k, v) in d.iter() { n.set(k.clone(), erase_refs(v)); } Object::Dictionary(n) }
+        Object::Stream(s) => { let mut n = s.clone(); let mut nd = Dictionary::new(); for (k, v) in s.dict.iter() { nd.set(k.clone(), erase_refs(v)); } n.dict = nd; Object::Stream(n) }
+        _ => o.clone(),
+    }
+}
+
+fn step(pre: &State, op: &Op) -> StepResult {
+    let mut fails: Vec<(String, String)> = vec![];
+    let mut post = pre.doc.clone();
+    let pages: Vec<Id> = pre.obs.pages.iter().map(|p| p.id).collect();
+    let out = match quiet(|| apply(&mut post, op, &pages)) {
+        Ok(o) => o,
+        Err(p) => return StepResult { next: None, fails: vec![("no-panic".into(), format!("{:?} panicked: {}", op, p))], changed: true },
+    };
+    let obs = match quiet(|| observe(&post)) {
+        Ok(o) => o,
+        Err(p) => return StepResult { next: None, fails: vec![("no-panic".into(), format!("get_page_content on the state after {:?} panicked: {}", op, p))], changed: true },
+    };
+    let predoc = &pre.doc;
+    let reach = &pre.obs.reach;
+    let fresh_obl = if pre.beyond || *op == Op::SetBeyond { "fresh-id-after-set-object-above-max-id" } else { "fresh-id" };
+    let mut allocated = pre.allocated.clone();
+    let mut beyond = pre.beyond || *op == Op::SetBeyond;
+    let new_keys: Vec<Id> = post.objects.keys().filter(|k| !predoc.objects.contains_key(k)).cloned().collect();
+    let is_fresh = |id: &Id| !predoc.objects.contains_key(id) && !pre.allocated.contains(id);
+    let pre_page = |id: Id| pre.obs.pages.iter().find(|p| p.id == id);
+    let post_page = |id: Id| obs.pages.iter().find(|p| p.id == id);
+
+    let mut expect_pages = pages.clone();
+    let mut positional = false;
+    let mut skip_c: BTreeSet<Id> = BTreeSet::new();
+    let mut skip_r: BTreeSet<Id> = BTreeSet::new();
+    let mut target_page: Option<Id> = None;
+    let mut exempt: BTreeSet<Id> = BTreeSet::new();
+    let mut removed: BTreeSet<Id> = BTreeSet::new();
+    let mut strip_ids: BTreeSet<Id> = BTreeSet::new();
+    let mut drop_count = false;
+    let mut allocating = false;
+    let mut frame = true;
+    let mut stream_sem = false;
+    let mut page_key: Option<(Id, &'static [u8])> = None;
+    let mut annot: Option<Id> = None;
+    let mut trailer_ignore: &[&[u8]] = &[];
+    let mut count_obl = "count-leaves";
+    let touching = |id: Id, sc: &mut BTreeSet<Id>, sr: &mut BTreeSet<Id>| {
+        for p in &pre.obs.pages { if p.cdeps.contains(&id) { sc.insert(p.id); } if p.rdeps.contains(&id) { sr.insert(p.id); } }
+    };
+
+    match op {
+        Op::NewId => {
+            allocating = true;
+            if let Out::Id(id) = &out {
+                if !is_fresh(id) { fails.push((fresh_obl.into(), format!("new_object_id returned {:?}, which is {}", id, if predoc.objects.contains_key(id) { "the id of an existing object" } else { "an id handed out before" }))); }
+                allocated.insert(*id);
+            }
+        }
+        Op::Add(_) | Op::AllocSet => {
+            allocating = true;
+            if let Out::Id(id) = &out {
+                if !is_fresh(id) { fails.push((fresh_obl.into(), format!("{:?} stored its object under {:?}, which is {}", op, id, if predoc.objects.contains_key(id) { "the id of an existing object" } else { "an id handed out before" }))); }
+                let want = if let Op::Add(k) = op { add_obj(*k, &pages) } else { marker("AllocSet") };
+                if post.objects.get(id) != Some(&want) { fails.push(("add-stores-object".into(), format!("object under the returned id {:?} is {:?}", id, post.objects.get(id)))); }
+                exempt.insert(*id);
+            }
+        }
+        Op::SetBeyond => {
+            if let Out::Id(id) = &out {
+                if post.objects.get(id) != Some(&marker("Beyond")) { fails.push(("replace-stores-object".into(), format!("set_object({:?}) did not store the object", id))); }
+                exempt.insert(*id);
+            }
+        }
+        Op::Replace(id) => {
+            exempt.insert(*id);
+            if post.objects.get(id) != Some(&repl_obj(predoc.objects.get(id))) { fails.push(("replace-stores-object".into(), format!("set_object({:?}) did not store the object", id))); }
+            touching(*id, &mut skip_c, &mut skip_r);
+        }
+        Op::Delete(id) => {
+            removed.insert(*id);
+            strip_ids.insert(*id);
+            touching(*id, &mut skip_c, &mut skip_r);
+            let mut m = predoc.clone();
+            m.objects.remove(id);
+            expect_pages = page_tree(&m).0;
+            if pre.obs.tree_nodes.contains(id) { count_obl = "count-leaves-after-delete-object-of-page-tree-node"; }
+        }
+        Op::RemoveAnnot(id) => {
+            annot = Some(*id);
+            if let Out::Res(Ok(())) = &out {
+                let ids: BTreeSet<Id> = [*id].into_iter().collect();
+                for p in &obs.pages {
+                    if let Some(Object::Array(a)) = dict_of(&post, p.id).and_then(|d| d.get(b"Annots").ok()).and_then(|a| deref(&post, a)) {
+                        if a.iter().any(|x| is_ref_in(x, &ids)) { fails.push(("remove-annotation-effect".into(), format!("remove_object({:?}) returned Ok but page {:?} still lists the annotation", id, p.id))); }
+                    }
+                }
+            }
+        }
+        Op::Prune => {
+            let unreachable: BTreeSet<Id> = predoc.objects.keys().filter(|k| !reach.contains(k)).cloned().collect();
+            removed = unreachable.clone();
+            let kept: BTreeSet<Id> = post.objects.keys().cloned().collect();
+            let want: BTreeSet<Id> = predoc.objects.keys().filter(|k| reach.contains(k)).cloned().collect();
+            if kept != want {
+                let lost: Vec<&Id> = want.difference(&kept).collect();
+                let stay: Vec<&Id> = kept.difference(&want).collect();
+                fails.push(("prune-exact".into(), format!("prune_objects removed reachable objects {:?} and/or kept unreachable objects {:?}", lost, stay)));
+            }
+            if let Out::Ids(v) = &out {
+                let got: BTreeSet<Id> = v.iter().cloned().collect();
+                if got != unreachable || got.len() != v.len() { fails.push(("prune-exact".into(), format!("prune_objects returned {:?}, the unreachable objects were {:?}", v, unreachable))); }
+            }
+        }
+        Op::DeletePages(nums) => {
+            let del: BTreeSet<Id> = nums.iter().filter(|n| **n >= 1 && (**n as usize) <= pages.len()).map(|n| pages[*n as usize - 1]).collect();
+            expect_pages = pages.iter().filter(|p| !del.contains(p)).cloned().collect();
+            removed = del.clone();
+            strip_ids = del;
+            drop_count = true;
+        }
+        Op::Renumber => {
+            frame = false;
+            positional = true;
+            allocated.clear();
+            beyond = false;
+            if post.objects.len() != predoc.objects.len() { fails.push(("renumber-preserves-objects".into(), format!("{} objects before, {} after", predoc.objects.len(), post.objects.len()))); }
+            else {
+                let shapes = |d: &Document| { let mut v: Vec<String> = d.objects.values().map(|o| format!("{:?}", erase_refs(o))).collect(); v.sort(); v };
+                if shapes(predoc) != shapes(&post) { fails.push(("renumber-preserves-objects".into(), "the objects, references blanked, are not the same collection before and after".into())); }
+            }
+            if obs.pages.len() == pre.obs.pages.len() {
+                for (k, b) in predoc.bookmark_table.iter() {
+                    if let Some(pos) = pages.iter().position(|p| *p == b.page) {
+                        let now = post.bookmark_table.get(k).map(|x| x.page);
+                        if now != Some(obs.pages[pos].id) { fails.push(("renumber-bookmark-page".into(), format!("bookmark {} pointed at page number {} ({:?}); afterwards it points at {:?}, page number {} is {:?}", k, pos + 1, b.page, now, pos + 1, obs.pages[pos].id))); }
+                    }
+                }
+            }
+        }
+        Op::Compress | Op::Decompress => { stream_sem = true; }
+        Op::ChangeContent(p, _) | Op::AddContents(p, _) | Op::AddToContent(p) | Op::InsertImage(p) | Op::InsertForm(p) => {
+            allocating = true;
+            let page = pg(&pages, *p);
+            if let Some(pp) = pre_page(page) {
+                target_page = Some(page);
+                page_key = Some((page, b"Contents"));
+                match op {
+                    Op::ChangeContent(..) => { exempt.extend(pp.cdeps.iter().cloned()); }
+                    Op::InsertImage(_) | Op::InsertForm(_) => { exempt.extend(pp.cdeps.iter().cloned()); exempt.extend(pp.rdeps.iter().cloned()); }
+                    _ => {}
+                }
+                let ok = matches!(&out, Out::Res(Ok(())));
+                if let (Ok(before), Some(qp)) = (&pp.content, post_page(page)) {
+                    match &qp.content {
+                        Err(e) => fails.push(("page-content".into(), format!("content of page {:?} cannot be decoded after {:?}: {}", page, op, e))),
+                        Ok(after) => {
+                            let verdict: Result<(), String> = if !ok {
+                                if after == before { Ok(()) } else { Err(format!("the call returned {:?} but the content changed", res_str(&out))) }
+                            } else {
+                                match op {
+                                    Op::ChangeContent(_, k) => if *after == content_arg(*k) { Ok(()) } else { Err(format!("expected the new content {:?}", show(&content_arg(*k)))) },
+                                    Op::AddContents(_, k) => {
+                                        let a = append_arg(*k);
+                                        if after.starts_with(before) && (after[before.len()..] == a[..] || (after.len() == before.len() + a.len() + 1 && after[before.len() + 1..] == a[..] && tokens(&after[before.len()..before.len() + 1]).is_empty())) { Ok(()) }
+                                        else { Err(format!("expected the old content followed by {:?}", show(&a))) }
+                                    }
+                                    Op::AddToContent(_) => {
+                                        if after.starts_with(before) && tokens(&after[before.len()..]) == vec![b"q".to_vec(), b"Q".to_vec()] { Ok(()) } else { Err("expected the old content followed by the operations q and Q".into()) }
+                                    }
+                                    Op::InsertImage(_) => {
+                                        let (tb, ta) = (tokens(before), tokens(after));
+                                        check_insert(&post, page, &tb, &ta, true)
+                                    }
+                                    _ => {
+                                        let (tb, ta) = (tokens(before), tokens(after));
+                                        check_insert(&post, page, &tb, &ta, false)
+                                    }
+                                }
+                            };
+                            if let Err(e) = verdict { fails.push(("page-content".into(), format!("page {:?} after {:?} -> {}: {}; content before {:?}, after {:?}", page, op, res_str(&out), e, show(before), show(after)))); }
+                        }
+                    }
+                }
+            }
+        }
+        Op::AddXObject(p, _, _) | Op::AddGState(p, _, _) => {
+            let page = pg(&pages, *p);
+            if let Some(pp) = pre_page(page) { exempt.extend(pp.rdeps.iter().cloned()); }
+        }
+        Op::AddBookmark(_) => {}
+        Op::BuildOutline => {
+            allocating = true;
+            let n = count_bookmarks(predoc, &predoc.bookmarks, 0);
+            match &out {
+                Out::OptId(None) => { if n > 0 { fails.push(("outline-built".into(), format!("{} bookmarks registered but build_outline returned None", n))); } }
+                Out::OptId(Some(id)) => {
+                    if !is_fresh(id) { fails.push((fresh_obl.into(), format!("build_outline put the outline root under {:?}, which is {}", id, if predoc.objects.contains_key(id) { "the id of an existing object" } else { "an id handed out before" }))); }
+                    if !post.objects.contains_key(id) { fails.push(("outline-built".into(), format!("returned outline root {:?} is not in the document", id))); }
+                    exempt.insert(*id);
+                }
+                _ => {}
+            }
+        }
+        Op::Save => {
+            trailer_ignore = BOOKKEEPING;
+            match &out {
+                Out::Saved(Err(e)) => fails.push(("save-ok".into(), format!("saving to memory failed: {}", e))),
+                Out::Saved(Ok(bytes)) => {
+                    match quiet(|| Document::load_mem(bytes)) {
+                        Err(p) => fails.push(("no-panic".into(), format!("loading the saved file panicked: {}", p))),
+                        Ok(Err(e)) => fails.push(("save-reload".into(), format!("the saved file does not load: {}", e))),
+                        Ok(Ok(l)) => {
+                            for (id, o) in predoc.objects.iter() {
+                                if crate::gen::is_bookkeeping_object(o) { continue; }
+                                let same = match (o, l.objects.get(id)) {
+                                    (Object::Stream(a), Some(Object::Stream(b))) => a.content == b.content && dict_eq(&a.dict, &b.dict, &[]),
+                                    (a, Some(b)) => obj_eq(a, b),
+                                    (_, None) => false,
+                                };
+                                if !same { fails.push(("save-reload".into(), format!("object {:?} was {:?} when saved, the saved file gives {:?}", id, o, l.objects.get(id)))); break; }
+                            }
+                            if !dict_eq(&predoc.trailer, &l.trailer, BOOKKEEPING) { fails.push(("save-reload".into(), format!("trailer {:?} reloads as {:?}", predoc.trailer, l.trailer))); }
+                        }
+                    }
+                }
+                _ => {}
+            }
+        }
+    }
+
+    // identifiers: nothing new may land on an id that was handed out earlier
+    if *op != Op::Renumber {
+        for k in &new_keys {
+            if pre.allocated.contains(k) { fails.push((fresh_obl.into(), format!("{:?} created object {:?}, an id new_object_id had handed out before", op, k))); }
+        }
+    }
+
+    // explicit deletions: gone, and no reference left in the live document
+    if !removed.is_empty() && *op != Op::Prune {
+        for r in &removed { if post.objects.contains_key(r) { fails.push(("delete-removes".into(), format!("{:?} left object {:?} in the document", op, r))); } }
+        let live = reach_ids(&post);
+        let mut left = vec![];
+        for (k, v) in post.trailer.iter() { if has_ref(v, &removed) { left.push(format!("trailer /{}", String::from_utf8_lossy(k))); } }
+        for id in &live { if let Some(o) = post.objects.get(id) { if has_ref(o, &removed) { left.push(format!("object {} {}: {:?}", id.0, id.1, o)); } } }
+        if !left.is_empty() { let mut t = left.join("; "); t.truncate(500); fails.push(("delete-no-leftover-reference".into(), format!("{:?} left references to {:?} in {}", op, removed, t))); }
+    }
+
+    // frame: every other object is what it was
+    if frame {
+        let annot_holders: BTreeSet<Id> = if annot.is_some() {
+            let mut h = BTreeSet::new();
+            for p in &pre.obs.pages { h.insert(p.id); if let Some(a) = dict_of(predoc, p.id).and_then(|d| d.get(b"Annots").ok()) { let mut ids = BTreeSet::new(); deref_ids(predoc, a, &mut ids); h.extend(ids); } }
+            h
+        } else { BTreeSet::new() };
+        for (k, o) in predoc.objects.iter() {
+            if removed.contains(k) { continue; }
+            let reachable = reach.contains(k);
+            if !reachable && !allocating { continue; }
+            let verdict: Result<(), String> = match post.objects.get(k) {
+                None => Err("was removed".into()),
+                Some(p) if p == o => Ok(()),
+                Some(_) if exempt.contains(k) && page_key.map(|x| x.0) != Some(*k) => Ok(()),
+                Some(p) => {
+                    if let Some((pid, key)) = page_key.filter(|x| x.0 == *k) {
+                        let _ = pid;
+                        match (o, p) {
+                            (Object::Dictionary(a), Object::Dictionary(b)) if without_keys(a, &[key]) == without_keys(b, &[key]) => Ok(()),
+                            _ if exempt.contains(k) => Ok(()),
+                            _ => Err(format!("changed outside /{}: {:?} -> {:?}", String::from_utf8_lossy(key), o, p)),
+                        }
+                    } else if stream_sem {
+                        match (o, p) { (Object::Stream(a), Object::Stream(b)) => stream_sem_eq(a, b), _ => Err(format!("changed: {:?} -> {:?}", o, p)) }
+                    } else if let Some(a) = annot {
+                        if annot_holders.contains(k) && strip_annots(o, a) == strip_annots(p, a) { Ok(()) } else { Err(format!("changed: {:?} -> {:?}", o, p)) }
+                    } else if !strip_ids.is_empty() {
+                        if strip(o, &strip_ids, drop_count) == strip(p, &strip_ids, drop_count) { Ok(()) } else { Err(format!("changed by more than losing references to {:?}: {:?} -> {:?}", strip_ids, o, p)) }
+                    } else { Err(format!("changed: {:?} -> {:?}", o, p)) }
+                }
+            };
+            if let Err(e) = verdict {
+                let mut e = e; e.truncate(600);
+                let obl = if reachable { if stream_sem { "stream-data-preserved" } else { "reachable-object-preserved" } } else { fresh_obl };
+                fails.push((obl.into(), format!("{:?}: {} object {} {} {}", op, if reachable { "reachable" } else { "unreachable" }, k.0, k.1, e)));
+            }
+        }
+        let ta = strip_dict(&without_keys(&predoc.trailer, trailer_ignore), &strip_ids, false);
+        let tb = strip_dict(&without_keys(&post.trailer, trailer_ignore), &strip_ids, false);
+        if ta != tb { fails.push(("reachable-object-preserved".into(), format!("{:?}: trailer changed: {:?} -> {:?}", op, predoc.trailer, post.trailer))); }
+    }
+
+    // page tree, contents, resources
+    if pre.obs.counts_bad.is_empty() && !obs.counts_bad.is_empty() { fails.push((count_obl.into(), format!("after {:?}: {}", op, obs.counts_bad.join("; ")))); }
+    let post_ids: Vec<Id> = obs.pages.iter().map(|p| p.id).collect();
+    if positional {
+        if post_ids.len() != pages.len() { fails.push(("page-list".into(), format!("{} pages before {:?}, {} after", pages.len(), op, post_ids.len()))); }
+    } else if post_ids != expect_pages {
+        fails.push(("page-list".into(), format!("pages after {:?} are {:?}, expected {:?}", op, post_ids, expect_pages)));
+    }
+    let pairs: Vec<(&PageObs, &PageObs)> = if positional {
+        if post_ids.len() == pages.len() { pre.obs.pages.iter().zip(obs.pages.iter()).collect() } else { vec![] }
+    } else {
+        obs.pages.iter().filter_map(|b| pre_page(b.id).map(|a| (a, b))).collect()
+    };
+    for (a, b) in pairs {
+        if !skip_c.contains(&a.id) && Some(a.id) != target_page {
+            if let Ok(ca) = &a.content {
+                match &b.content {
+                    Ok(cb) if cb == ca => {}
+                    other => fails.push(("page-content-preserved".into(), format!("{:?} changed the content of page {:?}, which it does not edit, from {:?} to {:?}", op, a.id, show(ca), other.as_ref().map(|x| show(x))))),
+                }
+            }
+        }
+        if a.lib_agrees && !b.lib_agrees {
+            fails.push(("page-content-read".into(), format!("after {:?} get_page_content({:?}) gives {:?}, the page's streams decode to {:?}", op, b.id, b.lib_content, b.content.as_ref().map(|x| show(x)))));
+        }
+        if !skip_r.contains(&a.id) && !matches!(op, Op::Delete(_) | Op::Replace(_)) || (matches!(op, Op::Delete(_) | Op::Replace(_)) && !skip_r.contains(&a.id)) {
+            let lost: Vec<String> = a.usable.difference(&b.usable).map(|(c, n)| format!("/{} /{}", String::from_utf8_lossy(c), String::from_utf8_lossy(n))).collect();
+            if !lost.is_empty() { fails.push(("resources-monotone".into(), format!("after {:?} page {:?} can no longer use {}", op, b.id, lost.join(", ")))); }
+        }
+    }
+
+    // the next identifier is fresh in the state just reached
+    let mut probe = post.clone();
+    match quiet(|| probe.new_object_id()) {
+        Err(p) => fails.push(("no-panic".into(), format!("new_object_id after {:?} panicked: {}", op, p))),
+        Ok(nid) => {
+            if post.objects.contains_key(&nid) || allocated.contains(&nid) {
+                fails.push((fresh_obl.into(), format!("after {:?} the next new_object_id() returns {:?}, which is {}", op, nid, if post.objects.contains_key(&nid) { "the id of an existing object" } else { "an id handed out before" })));
+            }
+        }
+    }
+
+    let changed = post.objects != predoc.objects || post.trailer != predoc.trailer || post.max_id != predoc.max_id || post.bookmarks != predoc.bookmarks;
+    StepResult { next: Some(State { doc: post, obs, allocated, beyond }), fails, changed }
+}
+
+fn res_str(o: &Out) -> String {
+    match o { Out::Res(Ok(())) => "Ok".into(), Out::Res(Err(e)) => format!("Err({})", e), _ => "()".into() }
+}
+
+/// content after insert_image (image=true: old tokens, q, a b c d e f cm, /N Do, Q) or insert_form_object (q, old tokens, Q, /N Do);
+/// /N must be an XObject name the page can use and must lead to the inserted stream
+fn check_insert(post: &Document, page: Id, before: &[Vec<u8>], after: &[Vec<u8>], image: bool) -> Result<(), String> {
+    let num = |t: &Vec<u8>| std::str::from_utf8(t).ok().and_then(|s| s.parse::<f64>().ok());
+    let name_tok: &Vec<u8>;
+    if image {
+        if after.len() != before.len() + 11 || after[..before.len()] != before[..] { return Err("expected the old operations followed by q, cm, Do, Q".into()); }
+        let t = &after[before.len()..];
+        let want = [10.0, 0.0, 0.0, 10.0, 5.0, 5.0];
+        let nums_ok = (0..6).all(|i| num(&t[1 + i]) == Some(want[i]));
+        if t[0] != b"q" || !nums_ok || t[7] != b"cm" || t[9] != b"Do" || t[10] != b"Q" { return Err("expected q, 10 0 0 10 5 5 cm, /name Do, Q after the old operations".into()); }
+        name_tok = &t[8];
+    } else {
+        if after.len() != before.len() + 4 || after[0] != b"q" || after[1..1 + before.len()] != before[..] { return Err("expected q, the old operations, Q, /name Do".into()); }
+        let t = &after[1 + before.len()..];
+        if t[0] != b"Q" || t[2] != b"Do" { return Err("expected Q, /name Do after the old operations".into()); }
+        name_tok = &t[1];
+    }
+    if name_tok.first() != Some(&b'/') { return Err("operand of Do is not a name".into()); }
+    match lookup_resource(post, page, b"XObject", &name_tok[1..]) {
+        Some(Object::Stream(s)) if matches!(s.dict.get(b"C11Marker"), Ok(Object::Name(n)) if n == b"Inserted") => Ok(()),
+        other => Err(format!("XObject name {:?} used by Do resolves to {:?} for this page, not to the inserted stream", show(name_tok), other)),
+    }
+}
+
+// ---------------------------------------------------------------------------------------------------------
+// start states, serialisation, enumeration
+// ---------------------------------------------------------------------------------------------------------
+
+fn add_bookmarks(d: &mut Document, b: &[BmSpec]) {
+    for s in b { d.add_bookmark(Bookmark::new(s.title.clone(), [0.0, 0.5, 0.0], 1, s.page), s.parent); }
+}
+
+fn start_doc(gen_doc: &Document, bms: &[BmSpec], loaded: bool) -> Result<Document, String> {
+    let mut d = gen_doc.clone();
+    if loaded {
+        let mut buf = vec![];
+        gen_doc.clone().save_to(&mut buf).map_err(|e| format!("saving the seed failed: {}", e))?;
+        d = Document::load_mem(&buf).map_err(|e| format!("loading the saved seed failed: {}", e))?;
+    }
+    add_bookmarks(&mut d, bms);
+    Ok(d)
+}
+
+fn start_state(gen_doc: &Document, bms: &[BmSpec], loaded: bool) -> Result<State, String> {
+    let doc = quiet(|| start_doc(gen_doc, bms, loaded)).map_err(|p| format!("panic while preparing the start document: {}", p))??;
+    let obs = quiet(|| observe(&doc)).map_err(|p| format!("panic while observing the start document: {}", p))?;
+    Ok(State { doc, obs, allocated: BTreeSet::new(), beyond: false })
+}
+
+fn doc_json(d: &Document, bms: &[BmSpec]) -> Value {
+    json!({
+        "version": d.version,
+        "xref_stream": d.reference_table.cross_reference_type == XrefType::CrossReferenceStream,
+        "max_id": d.max_id,
+        "objects": d.objects.iter().map(|(id, o)| json!({"id": id.0, "gen": id.1, "obj": obj_json(o)})).collect::<Vec<_>>(),
+        "trailer": obj_json(&Object::Dictionary(d.trailer.clone())),
+        "bookmarks": bms.iter().map(|b| json!({"title": b.title, "page": idj(b.page), "parent": b.parent})).collect::<Vec<_>>(),
+    })
+}
+
+fn doc_from_json(v: &Value) -> (Document, Vec<BmSpec>) {
+    let mut d = Document::with_version(v["version"].as_str().unwrap_or("1.5"));
+    d.reference_table.cross_reference_type = if v["xref_stream"].as_bool().unwrap_or(false) { XrefType::CrossReferenceStream } else { XrefType::CrossReferenceTable };
+    for e in v["objects"].as_array().cloned().unwrap_or_default() {
+        d.objects.insert((e["id"].as_u64().unwrap_or(0) as u32, e["gen"].as_u64().unwrap_or(0) as u16), obj_from_json(&e["obj"]));
+    }
+    d.max_id = v["max_id"].as_u64().unwrap_or(0) as u32;
+    if let Object::Dictionary(t) = obj_from_json(&v["trailer"]) { d.trailer = t; }
+    let bms = v["bookmarks"].as_array().cloned().unwrap_or_default().iter().map(|b| BmSpec { title: b["title"].as_str().unwrap_or("").to_string(), page: idv(&b["page"]), parent: b["parent"].as_u64().map(|x| x as u32) }).collect();
+    (d, bms)
+}
+
+/// the start document shows exactly what it was built to show (validates the observers of this module against the construction,
+/// and the library's own readers against both)
+fn seed_check(s: &Seed, loaded: bool) -> Vec<(String, String)> {
+    let mut f = vec![];
+    let st = match start_state(&s.doc, &s.bookmarks, loaded) { Ok(x) => x, Err(e) => return vec![("seed-start".into(), e)] };
+    if loaded {
+        for (id, o) in s.doc.objects.iter() {
+            let same = match (o, st.doc.objects.get(id)) {
+                (Object::Stream(a), Some(Object::Stream(b))) => a.content == b.content && dict_eq(&a.dict, &b.dict, &[]),
+                (a, Some(b)) => obj_eq(a, b),
+                _ => false,
+            };
+            if !same { f.push(("seed-loaded-equals-generated".into(), format!("object {:?}: generated {:?}, loaded {:?}", id, o, st.doc.objects.get(id)))); }
+        }
+        if st.doc.max_id < s.doc.max_id { f.push(("seed-loaded-equals-generated".into(), format!("max_id {} after loading, {} generated", st.doc.max_id, s.doc.max_id))); }
+    }
+    let ids: Vec<Id> = st.obs.pages.iter().map(|p| p.id).collect();
+    let want: Vec<Id> = s.pages.iter().map(|p| p.id).collect();
+    if ids != want { f.push(("seed-observer".into(), format!("page order {:?}, built as {:?}", ids, want))); return f; }
+    if !st.obs.counts_bad.is_empty() { f.push(("seed-observer".into(), st.obs.counts_bad.join("; "))); }
+    let lib_pages: Vec<Id> = st.doc.get_pages().values().cloned().collect();
+    if lib_pages != want { f.push(("seed-page-list-read".into(), format!("get_pages gives {:?}, built as {:?}", lib_pages, want))); }
+    for (e, o) in s.pages.iter().zip(st.obs.pages.iter()) {
+        if o.content.as_ref().ok() != Some(&e.content) { f.push(("seed-observer".into(), format!("page {:?} content {:?}, built as {:?}", e.id, o.content.as_ref().map(|x| show(x)), show(&e.content)))); }
+        if o.usable != e.res { f.push(("seed-observer".into(), format!("page {:?} resources {:?}, built as {:?}", e.id, o.usable, e.res))); }
+        if !o.lib_agrees { f.push(("page-content-read".into(), format!("start document: get_page_content({:?}) gives {:?}, the page's streams hold {:?}", e.id, o.lib_content, show(&e.content)))); }
+    }
+    f
+}
+
+struct FailRec { key: (usize, usize, usize, Vec<usize>), obligation: String, detail: String, input: Value }
+
+#[derive(Default)]
+struct Local { evals: u64, nontrivial: u64, fails: BTreeMap<String, Vec<FailRec>>, counts: BTreeMap<String, u64>, samples: Vec<String> }
+
+impl Local {
+    fn add(&mut self, obligation: &str, detail: String, key: (usize, usize, usize, Vec<usize>), input: impl FnOnce() -> Value) {
+        *self.counts.entry(obligation.to_string()).or_insert(0) += 1;
+        let v = self.fails.entry(obligation.to_string()).or_default();
+        if v.len() >= 3 && v.last().map(|l| l.key <= key).unwrap_or(false) { return; }
+        v.push(FailRec { key, obligation: obligation.to_string(), detail, input: input() });
+        v.sort_by(|a, b| a.key.cmp(&b.key));
+        v.truncate(3);
+    }
+    fn merge(&mut self, o: Local) {
+        self.evals += o.evals;
+        self.nontrivial += o.nontrivial;
+        for (k, c) in o.counts { *self.counts.entry(k).or_insert(0) += c; }
+        for (k, recs) in o.fails {
+            let v = self.fails.entry(k).or_default();
+            v.extend(recs);
+            v.sort_by(|a, b| a.key.cmp(&b.key));
+            v.truncate(3);
+        }
+        for s in o.samples { if self.samples.len() < 4 { self.samples.push(s); } }
+    }
+}
+
+struct Ctx<'a> { seed: &'a Seed, loaded: bool, start_index: usize, ops: &'a [Op], docj: &'a Value }
+
+fn explore(st: &State, depth_left: usize, path: &mut Vec<usize>, prior: usize, ctx: &Ctx, loc: &mut Local) {
+    for i in 0..ctx.ops.len() { node(st, i, depth_left, path, prior, ctx, loc); }
+}
+
+fn node(st: &State, i: usize, depth_left: usize, path: &mut Vec<usize>, prior: usize, ctx: &Ctx, loc: &mut Local) {
+    path.push(i);
+    let r = step(st, &ctx.ops[i]);
+    loc.evals += 1;
+    if r.changed { loc.nontrivial += 1; }
+    if loc.samples.is_empty() && path.len() >= 2 && r.changed {
+        loc.samples.push(format!("seed {} ({}): {:?}", ctx.seed.name, if ctx.loaded { "loaded from its saved file" } else { "generated" }, path.iter().map(|k| &ctx.ops[*k]).collect::<Vec<_>>()));
+    }
+    let failed = !r.fails.is_empty();
+    for (ob, det) in r.fails {
+        let key = (prior, path.len(), ctx.start_index, path.clone());
+        let seq: Vec<&Op> = path.iter().map(|k| &ctx.ops[*k]).collect();
+        let detail = format!("seed '{}' ({}), calls {:?}{}: {}", ctx.seed.name, if ctx.loaded { "loaded" } else { "generated" }, seq,
+            if prior > 0 { format!(" (after {} earlier violating step(s) in this sequence)", prior) } else { String::new() }, det);
+        let p2 = path.clone();
+        let obc = ob.clone();
+        loc.add(&ob, detail, key, || json!({"doc": ctx.docj.clone(), "loaded": ctx.loaded, "ops": p2.iter().map(|k| op_json(&ctx.ops[*k])).collect::<Vec<_>>(), "obligation": obc}));
+    }
+    if depth_left > 1 {
+        if let Some(n) = r.next { explore(&n, depth_left - 1, path, prior + failed as usize, ctx, loc); }
+    }
+    path.pop();
+}
+
+pub fn run(thorough: bool) -> Report {
+    let depth = if thorough { 3 } else { 2 };
+    let all = seeds();
+    let nops: Vec<usize> = all.iter().map(|s| ops_for(s).len()).collect();
+    let bound = format!(
+        "all call sequences of length 1..={} over a per-seed alphabet of {}..{} concrete calls (new_object_id; add_object x2; new_object_id+set_object; set_object above max_id; set_object on 1-3 existing ids; \
+delete_object on 3-7 ids incl. content streams, shared/duplicated entries, resource dictionaries, pages, the catalog, trailer- and stream-dictionary-referenced, unreachable and absent ids; remove_object on 0-3 ids; prune_objects; \
+delete_pages [1],[2],[1,2],[1,1],[0,9],[3,1]; renumber_objects; compress; decompress; change_page_content / add_page_contents per page with short and compressible data and on an absent page; add_to_page_content; \
+add_xobject / add_graphics_state per page with new and existing names and on an absent page; insert_image, insert_form_object per page; add_bookmark x2; build_outline; save_to + reload) \
+on 7 seed documents of 8-18 objects (flat and nested page trees, sparse/high ids, generation 2, max_id slack, inherited/own/shared/indirect resources, Contents as reference/array/empty array/reference to array/absent, \
+Flate/ASCII85/empty-filter-array/DCT/indirect-Length streams, duplicate and shared annotations, Annots absent/direct/indirect, dangling and cyclic references, unreachable objects, registered bookmarks), \
+each seed once as generated and once as loaded from its own saved file; every step of every sequence checked against the pre-state; structures are small and acyclic in depth, so no call can recurse unboundedly (no child process used)",
+        depth, nops.iter().min().unwrap(), nops.iter().max().unwrap());
+    let mut rep = Report::new(&bound, true);
+    let prev = std::panic::take_hook();
+    std::panic::set_hook(Box::new(|_| {}));
+
+    let mut total = Local::default();
+    // the start documents themselves
+    let mut starts: Vec<(usize, bool)> = vec![];
+    for (si, s) in all.iter().enumerate() {
+        for loaded in [false, true] {
+            total.evals += 1;
+            total.nontrivial += 1;
+            let f = quiet(|| seed_check(s, loaded)).unwrap_or_else(|p| vec![("no-panic".into(), format!("checking the start document panicked: {}", p))]);
+            let usable_start = !f.iter().any(|(o, _)| o == "seed-start" || o == "seed-observer" || o == "no-panic");
+            for (ob, det) in f {
+                let name = s.name;
+                total.add(&ob, format!("seed '{}' ({}): {}", s.name, if loaded { "loaded" } else { "generated" }, det), (0, 0, starts.len(), vec![]), || json!({"seed_check": name, "loaded": loaded, "obligation": ob.clone()}));
+            }
+            if usable_start { starts.push((si, loaded)); }
+        }
+    }
+    let opsets: Vec<Vec<Op>> = all.iter().map(ops_for).collect();
+    let docjs: Vec<Value> = all.iter().map(|s| doc_json(&s.doc, &s.bookmarks)).collect();
+    let mut tasks: Vec<(usize, usize, bool, usize)> = vec![];
+    for (k, (si, loaded)) in starts.iter().enumerate() { for i in 0..opsets[*si].len() { tasks.push((k, *si, *loaded, i)); } }
+    let locals: Vec<Local> = tasks.par_iter().map(|(k, si, loaded, i)| {
+        let mut loc = Local::default();
+        let s = &all[*si];
+        match start_state(&s.doc, &s.bookmarks, *loaded) {
+            Ok(st) => {
+                let ctx = Ctx { seed: s, loaded: *loaded, start_index: *k, ops: &opsets[*si], docj: &docjs[*si] };
+                let mut path = vec![];
+                node(&st, *i, depth, &mut path, 0, &ctx, &mut loc);
+            }
+            Err(e) => loc.add("seed-start", e, (0, 0, *k, vec![]), || json!({"seed_check": s.name, "loaded": loaded})),
+        }
+        loc
+    }).collect();
+    for l in locals { total.merge(l); }
+    std::panic::set_hook(prev);
+
+    rep.evaluations = total.evals;
+    rep.nontrivial = total.nontrivial;
+    rep.obligations = 22;
+    for s in total.samples { rep.sample(s); }
+    let mut recs: Vec<FailRec> = total.fails.into_values().flatten().collect();
+    recs.sort_by(|a, b| (a.obligation.as_str(), &a.key).cmp(&(b.obligation.as_str(), &b.key)));
+    for r in recs {
+        let n = total.counts.get(&r.obligation).cloned().unwrap_or(0);
+        rep.fail(&r.obligation, format!("[{} failing steps in total for this obligation] {}", n, r.detail), r.input, r.detail.clone());
+    }
+    for (k, c) in &total.counts { eprintln!("c11: obligation {} failed at {} steps", k, c); }
+    rep
+}
+
+pub fn replay(v: &Value) -> Result<(), String> {
+    let want = v["obligation"].as_str().map(|s| s.to_string());
+    let matches_want = |o: &str| want.as_deref().map(|w| w == o).unwrap_or(true);
+    if let Some(name) = v["seed_check"].as_str() {
+        let s = seeds().into_iter().find(|s| s.name == name).ok_or_else(|| format!("unknown seed {}", name))?;
+        let f = guarded(AssertUnwindSafe(|| seed_check(&s, v["loaded"].as_bool().unwrap_or(false)))).map_err(|p| format!("no-panic: {}", p))?;
+        return match f.into_iter().find(|(o, _)| matches_want(o)) { Some((o, d)) => Err(format!("{}: {}", o, d)), None => Ok(()) };
+    }
+    let (doc, bms) = doc_from_json(&v["doc"]);
+    let ops: Vec<Op> = v["ops"].as_array().cloned().unwrap_or_default().iter().filter_map(op_from_json).collect();
+    let r = guarded(AssertUnwindSafe(|| -> Result<(), String> {
+        let mut st = start_state(&doc, &bms, v["loaded"].as_bool().unwrap_or(false)).map_err(|e| format!("seed-start: {}", e))?;
+        for (k, op) in ops.iter().enumerate() {
+            let r = step(&st, op);
+            if let Some((o, d)) = r.fails.into_iter().find(|(o, _)| matches_want(o)) { return Err(format!("{} at call {} ({:?}): {}", o, k + 1, op, d)); }
+            match r.next { Some(n) => st = n, None => break }
+        }
+        Ok(())
+    }));
+    match r { Ok(x) => x, Err(p) => Err(format!("no-panic: harness-level panic {}", p)) }
 }
